@@ -196,6 +196,13 @@ def hostile_phase(tier, seed, col):
         total += n
         for k, det in out:
             col.add(k, {'cfg': {}, 'history': [], 'hostile': det['frame'], 'state': det['state']}, det)
+    # the worker thread of a REST send is held between its answer and its reactor.callFromThread: every window (vf/deferred.py)
+    from .. import deferred
+    dts = deferred.tasks(PROP, tier)
+    for t, (n, viol, cl) in zip(dts, explore.pmap(deferred.task, dts, chunk=1)):
+        total += n
+        for k, det in viol:
+            col.add(k, {'cfg': det['cfg'], 'history': det['history'], 'deferred': True}, det)
     return total, len(items)
 
 
@@ -210,6 +217,16 @@ def replay(path):
     import json
     d = json.load(open(path))
     w = d['witness']
+    if w.get('deferred'):
+        from .. import deferred
+        a, b = report.fresh(deferred.replay, PROP, w), report.fresh(deferred.replay, PROP, w)
+        if repr(a) != repr(b):
+            print('HARNESS-ERROR: replay is not deterministic')
+            return 2
+        print('events after Established:', w['history'])
+        for k, det in a:
+            print(k, json.dumps(det, default=str)[:600])
+        return 1 if any(d['key'].startswith(k + '|') for k, _ in a) else 0
     if 'hostile' in w:
         label = d['key'].split('|')[-1].rsplit(' in ', 1)[0]
         t = (w['state'], [(label, bytes.fromhex(w['hostile']))])
